@@ -318,5 +318,6 @@ def check(run):
     r7_member_index(run, F)
     r8_generator_visit(run, F)
     # integer literals are materialised with the sign/zero extension their type prescribes (shared with C09.R6)
-    from props import c09
+    from props import c09, c03
     c09.r6_generator(run, F)
+    c03.r8_call_convention(run, F)
